@@ -67,10 +67,11 @@ func VerifC02Step() {
 			}
 		}
 	}
-	// known finding: a state implied through Add relations (not called) keeps a state it Removes
+	// known finding: a state that is in the target only through Add relations (not called, and not
+	// carried over from the active set: a Set drops those) keeps a state it Removes
 	impliedRemover := false
 	for _, p := range post {
-		if verifHas(called, p) && mt != 1 {
+		if verifHas(called, p) || (verifHas(pre, p) && mt != 2) {
 			continue
 		}
 		for _, r := range schema[p].Remove {
